@@ -748,4 +748,69 @@ class Num:
 
     def eq0(self, f: Form) -> bool:
         lo, hi = self.rng(f)
-        return lo == 0 and hi == 0
+        if lo == 0 and hi == 0:
+            return True
+        if any(SYMTAB.syms[s].kind == 'div' for s, _ in f.terms):
+            g = self.canon(f)
+            if not g.terms and g.c == 0:
+                return True
+            if g != f:
+                lo, hi = self.rng(g)
+                return lo == 0 and hi == 0
+        return False
+
+    # ---- canonical form of quotients (used to decide equalities between differently written, equal expressions)
+    def canon(self, f: Form, depth=0) -> Form:
+        """rewrite every quotient symbol Div(g, c) of f by the rules
+             Div(Div(x, a), c)  = Div(x, a*c)                              (truncating division nests)
+             Div(c*T + r, c)    = T + Div(r, c)   if c*T + r and r have the same sign (both >= 0 or both <= 0 on this path)
+           applied inside out; two expressions for the same quantity (running remainder, `%` chains, one division and a
+           multiply-subtract, ...) end in the same combination of the same hash-consed symbols"""
+        if depth > 8:
+            return f
+        out = Form(f.c, ())
+        for s, k in f.terms:
+            info = SYMTAB.syms[s]
+            if info.kind == 'div' and info.data[1] > 0:
+                out = out.add(self._canon_div(info.data[0], info.data[1], depth + 1).scale(k))
+            else:
+                out = out.add(Form.sym(s, k))
+        return out
+
+    def _canon_div(self, g: Form, c: int, depth) -> Form:
+        if len(g.terms) == 1 and g.c == 0 and g.terms[0][1] == 1:
+            inner = SYMTAB.syms[g.terms[0][0]]
+            if inner.kind == 'div' and inner.data[1] > 0 and depth < 8:
+                return self._canon_div(inner.data[0], inner.data[1] * c, depth + 1)
+        g = self.canon(g, depth)
+        if not g.terms:
+            return Form.const(tdiv(g.c, c))
+        if len(g.terms) == 1 and g.c == 0 and g.terms[0][1] == 1:
+            inner = SYMTAB.syms[g.terms[0][0]]
+            if inner.kind == 'div' and inner.data[1] > 0 and depth < 8:
+                return self._canon_div(inner.data[0], inner.data[1] * c, depth + 1)
+        lo, hi = self.rng(g, 0, 2)
+        mult = tuple((s_, k) for s_, k in g.terms if k % c == 0)
+        if mult and (lo >= 0 or hi <= 0) and depth < 8:
+            rest = Form(g.c, tuple((s_, k) for s_, k in g.terms if k % c != 0))
+            T = Form(0, tuple((s_, k // c) for s_, k in mult))
+            if not rest.terms:
+                k1, k0 = rest.c // c, rest.c % c
+                if lo < 0 and k0:
+                    k1 += 1
+                return T.addc(k1)
+            rl, rh = self.rng(rest, 0, 2)
+            if (lo >= 0 and rl >= 0) or (hi <= 0 and rh <= 0):
+                return T.add(self._canon_div(rest, c, depth + 1))
+            # not all multiples at once (e.g. a remainder form u - D*q must stay together): one multiple at a time
+            for (s_, k) in mult:
+                one = Form.sym(s_, k)
+                rest1 = g.sub(one)
+                rl, rh = self.rng(rest1, 0, 2)
+                if (lo >= 0 and rl >= 0) or (hi <= 0 and rh <= 0):
+                    return Form.sym(s_, k // c).add(self._canon_div(rest1, c, depth + 1))
+        q = SYMTAB.cons.get(('div', g.key(), c))
+        if q is None:
+            big = 1 << 127
+            q = SYMTAB.div(g, c, -big, big)
+        return Form.sym(q)
